@@ -1,7 +1,9 @@
 (* Property C08 — New reproduces its input or rejects it; Select/Drop/Slice/Copy project exactly. *)
-From QF Require Import Base.Prelude Model.Bits Proofs.BitsProofs.
+From QF Require Import Base.Prelude Model.Bits Model.Frame Model.Filter Model.Ops Model.TableSpec Proofs.BitsProofs Proofs.OpsProofs.
 Local Open Scope N_scope.
 
+(* strings.Pointer packing (every string cell of a frame is addressed through it): the accessors read back
+   exactly what NewPointer packed, for all offsets < 2^35 and lengths < 2^28; constants regenerated from Go. *)
 Theorem C08_pointer_roundtrip (o l : N) (isnull : bool) :
   o < 2^35 -> l < 2^28 ->
   ptr_offset (new_pointer o l isnull) = o /\
@@ -9,3 +11,50 @@ Theorem C08_pointer_roundtrip (o l : N) (isnull : bool) :
   ptr_isnull (new_pointer o l isnull) = isnull.
 Proof. exact (pointer_roundtrip o l isnull). Qed.
 Print Assumptions C08_pointer_roundtrip.
+
+(* Slice(a, b) = exactly rows a .. b-1 of the logical table, all columns as they were, for every row index *)
+Theorem C08_slice f a b t :
+  ferr f = false -> abs f = Ok t ->
+  (0 <= a)%Z -> (a <= b)%Z -> (b <= Z.of_nat (length (ix f)))%Z ->
+  ferr (slice f a b) = false /\ abs (slice f a b) = Ok (tslice t (Z.to_nat a) (Z.to_nat b)).
+Proof. exact (slice_abs f a b t). Qed.
+Print Assumptions C08_slice.
+
+(* ... and every other request is rejected through Err *)
+Theorem C08_slice_rejects f a b :
+  ferr f = false -> (a < 0 \/ b < a \/ Z.of_nat (length (ix f)) < b)%Z -> ferr (slice f a b) = true.
+Proof. exact (slice_rejects f a b). Qed.
+Print Assumptions C08_slice_rejects.
+
+(* Copy(dst, src) = setColumn(dst, column of src): replaced in position or appended last, everything else
+   (index, Err, what other names resolve to) unchanged; an unknown source is rejected. *)
+Theorem C08_copy f dst src c :
+  ferr f = false -> lookup_col f src = Some c -> bytes_eqb dst src = false -> check_name dst = true ->
+  let g := copy f dst src in
+  ix g = ix f /\ ferr g = false /\ lookup_col g dst = Some c
+  /\ (forall m, bytes_eqb dst m = false -> lookup g m = lookup f m).
+Proof. exact (copy_spec f dst src c). Qed.
+Print Assumptions C08_copy.
+
+Theorem C08_copy_rejects f dst src :
+  ferr f = false -> lookup_col f src = None -> ferr (copy f dst src) = true.
+Proof. exact (copy_rejects f dst src). Qed.
+Print Assumptions C08_copy_rejects.
+
+(* Select: unknown names are rejected; otherwise exactly the requested columns in the requested order,
+   each being the column its name resolves to, over the unchanged row index. *)
+Theorem C08_select f names :
+  ferr f = false -> names <> [] ->
+  (forallb (contains f) names = false -> ferr (select f names) = true)
+  /\ (forallb (contains f) names = true ->
+      ferr (select f names) = false /\ ix (select f names) = ix f
+      /\ col_names (select f names) = names
+      /\ Forall2 (fun n nc => fst nc = n /\ lookup_col f n = Some (snd nc)) names (cols (select f names))).
+Proof. exact (select_spec f names). Qed.
+Print Assumptions C08_select.
+
+(* Non-vacuity *)
+Example C08_slice_example :
+  let f := mkFrame [([65%N], ICol [10; 20; 30; 40]%Z); ([66%N], SCol [None; Some []; Some [97]; None])] [3; 1; 0; 2]%nat false in
+  abs (slice f 1 3) = Ok (mkTable [[65%N]; [66%N]] [TInt; TString] [[CInt 20; CStr (Some [])]; [CInt 10; CStr None]]%Z).
+Proof. vm_compute. reflexivity. Qed.
